@@ -240,3 +240,64 @@ def asgi_call(app, scope, body_events=None, fail_send_at=0, send_error=None):
     res.completed = state['done']
     res.started = state['started']
     return res
+
+
+# ---------------------------------------------------------------- deterministic event loop
+import asyncio  # noqa: E402
+import collections  # noqa: E402
+from asyncio import events as _events  # noqa: E402
+
+
+class MiniLoop(asyncio.AbstractEventLoop):
+    """40-line deterministic loop: FIFO ready queue exactly like asyncio's, futures and tasks from asyncio itself.
+    The harness decides, step by step, whether to run the next ready callback or to let the *environment* act
+    (resolve an outstanding server receive()), so interleavings become solver variables."""
+
+    def __init__(self):
+        self._ready = collections.deque()
+        self.steps = 0
+
+    def get_debug(self):
+        return False
+
+    def is_running(self):
+        return True
+
+    def is_closed(self):
+        return False
+
+    def time(self):
+        return 0.0
+
+    def create_future(self):
+        return asyncio.Future(loop=self)
+
+    def create_task(self, coro, *, name=None, context=None):
+        return asyncio.Task(coro, loop=self, name=name)
+
+    def call_soon(self, cb, *args, context=None):
+        h = _events.Handle(cb, args, self, context)
+        self._ready.append(h)
+        return h
+
+    def call_exception_handler(self, ctx):
+        pass   # aborted symbolic paths destroy pending tasks; nothing to report
+
+    def run_one(self):
+        h = self._ready.popleft()
+        self.steps += 1
+        if not h._cancelled:
+            h._run()
+        return h
+
+
+class running_loop:
+    def __init__(self, loop):
+        self.loop = loop
+
+    def __enter__(self):
+        _events._set_running_loop(self.loop)
+        return self.loop
+
+    def __exit__(self, *a):
+        _events._set_running_loop(None)
